@@ -1180,3 +1180,13 @@ def sorted_view(res, fn, e, nid):
           src = strip_wrappers(res.expand(vals[0][0], vals[0][1]), ("list", "tuple"))
           return src, c
   return None
+
+
+def sole_arg(call):
+  """The single argument of a call, however it is passed (positionally or by keyword); None when
+  the call has no or several arguments, or star-arguments."""
+  vals = list(call.args) + [k.value for k in call.keywords]
+  if len(vals) != 1 or isinstance(vals[0], ast.Starred) or \
+      any(k.arg is None for k in call.keywords):
+    return None
+  return vals[0]
